@@ -174,18 +174,36 @@ def compiler():
 NS = 'root/c08'
 
 
+class CompileTimeout(Exception):
+    """the real compiler did not come back within COMPILE_TIMEOUT seconds (the string-token regex of the lexer
+    backtracks exponentially on a string literal with many \\x escapes that does not terminate properly)"""
+
+
+COMPILE_TIMEOUT = 1.5
+
+
+def _alarm(signum, frame):
+    raise CompileTimeout()
+
+
 def compile_mof(mof):
     """-> (conn, None) or (None, exception)"""
+    import signal
+    global _COMP
     comp, conn = compiler()
+    old = signal.signal(signal.SIGALRM, _alarm)
+    signal.setitimer(signal.ITIMER_REAL, COMPILE_TIMEOUT)
     try:
         comp.compile_string(mof, NS)
         return conn, None
-    except Exception as e:  # noqa
-        try:
-            comp.rollback()
-        except Exception:  # noqa
-            pass
+    except CompileTimeout as e:
+        _COMP = None
         return None, e
+    except Exception as e:  # noqa
+        return None, e
+    finally:
+        signal.setitimer(signal.ITIMER_REAL, 0)
+        signal.signal(signal.SIGALRM, old)
 
 
 def real_strlist(text):
@@ -341,6 +359,138 @@ def stage1(run):
             run.disagree(case, a, real, 'strlist')
 
 
+def item_json(v, typ):
+    """a scalar as the model's Item: strings/char16 by value, other literals as printed by the real code on an
+    unbounded line (number formatting is not modelled; placement is)"""
+    from pywbem import _cim_obj
+    if v is None:
+        return None
+    if typ == 'string':
+        return {'s': common.cps(v)}
+    if typ == 'char16':
+        return {'c': common.cps(v)}
+    if typ == 'datetime':
+        return {'s': common.cps(str(v))}
+    return {'l': common.cps(_cim_obj._scalar_value_tomof(v, typ, 0, 10 ** 6, 0, 0)[0])}
+
+
+def stage1_values(run):
+    """K for _value_tomof / mofval: arrays and scalars of every type, NULL items, placement bookkeeping"""
+    from pywbem import _cim_obj
+    rng = run.rng
+    n = 12000 if run.thorough else 2500
+    reqs, cases = [], []
+    for i in range(n):
+        c = fold_params(rng)
+        typ = rng.choice(['string', 'string', 'string', 'char16', 'boolean', 'datetime', 'real64', 'real32', 'uint8',
+                          'sint64', 'uint64'])
+        if rng.random() < 0.75:
+            k = rng.choice([0, 1, 2, 3, 5, 9, 14])
+            v = []
+            for _ in range(k):
+                if rng.random() < 0.1:
+                    v.append(None)
+                elif typ == 'string':
+                    v.append(gen_string(rng, rng.choice([0, 1, 3, 8, 20, 40, 70, 150])))
+                else:
+                    v.append(gen_scalar(rng, typ))
+            jv = [item_json(x, typ) for x in v]
+        else:
+            v = gen_scalar(rng, typ) if rng.random() < 0.9 else None
+            jv = item_json(v, typ)
+        cases.append((c, typ, v))
+        reqs.append({'op': 'value', 'v': jv, 'indent': c['indent'], 'maxline': c['maxline'], 'pos': c['pos'],
+                     'es': c['es'], 'avoid': c['avoid']})
+    ans = common.run_driver(PROP, reqs)
+    for (c, typ, v), a in zip(cases, ans):
+        try:
+            m, p = _cim_obj._value_tomof(v, typ, c['indent'], c['maxline'], c['pos'], c['es'], c['avoid'])
+            real = {'ok': {'mof': common.cps(m), 'pos': p}}
+        except Exception as e:  # noqa
+            real = exc_json(e)
+        case = {'op': 'value', 'type': typ, 'v': repr(v)[:2000], **c}
+        run.case(case, nontrivial=('ok' in real and 10 in real['ok']['mof']))
+        run.count('value:' + typ + ('[]' if isinstance(v, list) else '') + ':' + real.get('exc', 'ok'))
+        if a != real:
+            run.disagree(case, a, real, 'value_tomof')
+
+
+def gen_numeric_text(rng):
+    """near-miss stream for the five numeric token rules"""
+    d = '0123456789'
+    r = rng.random()
+    sign = rng.choice(['', '', '', '+', '-'])
+    digs = lambda n, al=d: ''.join(rng.choice(al) for _ in range(n))  # noqa: E731
+    if r < 0.2:
+        body = rng.choice(['0', '00', '007', '08', '0' + digs(rng.randint(1, 4)), digs(rng.randint(1, 20))])
+    elif r < 0.4:
+        body = digs(rng.randint(0, 3)) + '.' + digs(rng.randint(0, 3)) + rng.choice(
+            ['', '', 'e', 'E5', 'e+', 'e-07', 'E+12x', 'e5.5', '.5'])
+    elif r < 0.55:
+        body = '0' + rng.choice('xXyb') + digs(rng.randint(0, 5), '0123456789abcdefABCDEFg')
+    elif r < 0.7:
+        body = digs(rng.randint(0, 6), '01012') + rng.choice(['b', 'B', 'b1', ''])
+    elif r < 0.85:
+        body = str(rng.choice([0, 1, 9, 10, 255, 65535, 2 ** 31, 2 ** 63 - 1, 2 ** 64 - 1, 10 ** 30,
+                               rng.randint(0, 10 ** rng.randint(1, 25))]))
+    else:
+        body = digs(rng.randint(1, 3)) + rng.choice(['e5', 'a', 'x1', ' 1', ',', '_', '٣', '²'])
+    return sign + body + rng.choice(['', '', ';', ',', ' ', ')', 'b', '.', 'e1', '0'])
+
+
+NUM_TYPES = ('floatValue', 'hexValue', 'binaryValue', 'octalValue', 'decimalValue', 'error')
+
+
+def real_number_token(text):
+    lx = real_lexer()
+    lx.input(text)
+    lx.lineno = 1
+    try:
+        t = lx.token()
+    except Exception as e:  # noqa
+        return {'exc': type(e).__name__}
+    if t is None or t.lexpos != 0 or t.type not in NUM_TYPES:
+        return {'tok': None}
+    rest = len(text) - lx.lexpos
+    if t.type == 'floatValue':
+        return {'tok': 'float', 'value': repr(t.value), 'rest': rest}
+    if t.type == 'error':
+        # t_error (illegal character) also yields type 'error': value = rest of input, 1 char skipped
+        if not (isinstance(t.value, str) and len(t.value) >= 2 and (t.value[0] in '+-0123456789')
+                and lx.lexpos == len(t.value)):
+            return {'tok': None}
+        return {'tok': 'error', 'text': common.cps(t.value), 'rest': rest}
+    return {'tok': 'int', 'v': str(t.value), 'rest': rest}
+
+
+def stage1_numbers(run):
+    rng = run.rng
+    n = 20000 if run.thorough else 4000
+    texts = [gen_numeric_text(rng) for _ in range(n)]
+    ans = common.run_driver(PROP, [{'op': 'lexnum', 'text': common.cps(t)} for t in texts])
+    for t, a in zip(texts, ans):
+        real = real_number_token(t)
+        model = dict(a)
+        if model.get('tok') == 'float':
+            try:
+                model = {'tok': 'float', 'value': repr(float(common.from_cps(model['text']))), 'rest': model['rest']}
+            except Exception:  # noqa
+                model = {'tok': 'float', 'value': 'unparsable', 'rest': model['rest']}
+        case = {'op': 'lexnum', 'text': t}
+        run.case(case, nontrivial=bool(real.get('tok')))
+        run.count('lexnum:' + str(real.get('tok')))
+        if model != real:
+            run.disagree(case, a, real, 'lexnum')
+    # str(int) of the model = Python's
+    vals = [0, 1, -1, 9, 10, -10, 99, 100, 2 ** 63, -2 ** 63, 2 ** 64 - 1] + \
+        [rng.randint(-10 ** rng.randint(1, 30), 10 ** rng.randint(1, 30)) for _ in range(500)]
+    ans = common.run_driver(PROP, [{'op': 'intstr', 'v': str(v)} for v in vals])
+    for v, a in zip(vals, ans):
+        run.case({'op': 'intstr', 'v': str(v)}, nontrivial=True)
+        if a != {'out': common.cps(str(v))}:
+            run.disagree({'op': 'intstr', 'v': str(v)}, a, {'out': common.cps(str(v))}, 'intstr')
+
+
 def oracle_string(run, case, mof_text, original, where):
     real = real_strlist(mof_text)
     if 'exc' in real:
@@ -351,17 +501,668 @@ def oracle_string(run, case, mof_text, original, where):
                     {'mof': mof_text, 'compiled': real['ok']})
 
 
+# =========================================================================== stage 2: declarations
+
+INT_LIMITS = {'uint8': (0, 2**8 - 1), 'sint8': (-2**7, 2**7 - 1), 'uint16': (0, 2**16 - 1), 'sint16': (-2**15, 2**15 - 1),
+              'uint32': (0, 2**32 - 1), 'sint32': (-2**31, 2**31 - 1), 'uint64': (0, 2**64 - 1),
+              'sint64': (-2**63, 2**63 - 1)}
+QUAL_TYPES = ['string', 'boolean', 'datetime', 'char16', 'real32', 'real64'] + list(INT_LIMITS)
+SCOPES = ['CLASS', 'ASSOCIATION', 'INDICATION', 'PROPERTY', 'REFERENCE', 'METHOD', 'PARAMETER', 'ANY']
+REALS64 = [0.0, 1.0, -1.0, 1.5, -2.25, 0.1, 1e16, 1e-5, 123456789.125, 1.7976931348623157e308, 5e-324, 2.5e-7,
+           1e22, 1e21, 12345678901234567890.0, 3.141592653589793, -0.0, 1e100, 9007199254740993.0]
+REALS32 = [0.0, 1.0, -1.0, 1.5, -2.25, 0.1, 1e16, 1e-5, 3.4028234663852886e38, 1.401298464324817e-45, 16777217.0, -0.0]
+
+
+def gen_name(rng, prefix):
+    return prefix + ''.join(rng.choice('abcXYZ019_') for _ in range(rng.choice([1, 2, 4, 7])))
+
+
+def gen_text(rng):
+    """a string value: mostly short, sometimes long enough to be folded once or several times"""
+    n = rng.choice([0, 1, 2, 3, 5, 8, 12, 20, 30, 45, 60, 70, 72, 74, 76, 80, 100, 150, 230])
+    if rng.random() < 0.25:
+        return gen_near_fold(rng, rng.choice([60, 66, 69, 70, 72, 75, 100]))
+    return gen_string(rng, n)
+
+
+def gen_datetime(rng):
+    import pywbem
+    if rng.random() < 0.5:
+        return pywbem.CIMDateTime('%04d%02d%02d%02d%02d%02d.%06d%s%03d' % (
+            rng.randint(1, 9999), rng.randint(1, 12), rng.randint(1, 28), rng.randint(0, 23), rng.randint(0, 59),
+            rng.randint(0, 59), rng.randint(0, 999999), rng.choice('+-'), rng.randint(0, 720)))
+    return pywbem.CIMDateTime('%08d%02d%02d%02d.%06d:000' % (
+        rng.randint(0, 99999999), rng.randint(0, 23), rng.randint(0, 59), rng.randint(0, 59), rng.randint(0, 999999)))
+
+
+def gen_scalar(rng, typ):
+    import pywbem
+    if typ == 'string':
+        return gen_text(rng)
+    if typ == 'char16':
+        return gen_char(rng, rng.choice(PROFILES))
+    if typ == 'boolean':
+        return rng.random() < 0.5
+    if typ == 'datetime':
+        return gen_datetime(rng)
+    if typ == 'real32':
+        return pywbem.Real32(rng.choice(REALS32 + [rng.uniform(-1e3, 1e3)]))
+    if typ == 'real64':
+        return pywbem.Real64(rng.choice(REALS64 + [rng.uniform(-1e6, 1e6), rng.random() * 10 ** rng.randint(-30, 30)]))
+    lo, hi = INT_LIMITS[typ]
+    v = rng.choice([lo, hi, 0, 1, lo + 1, hi - 1, rng.randint(lo, hi), rng.randint(max(lo, -100), min(hi, 100))])
+    return pywbem.cimtype_cls(typ)(v) if hasattr(pywbem, 'cimtype_cls') else pywbem.cimvalue(v, typ)
+
+
+def gen_value(rng, typ, is_array, allow_null_items=False):
+    if not is_array:
+        return gen_scalar(rng, typ)
+    n = rng.choice([0, 1, 1, 2, 3, 5, 9])
+    out = []
+    for _ in range(n):
+        if allow_null_items and rng.random() < 0.1:
+            out.append(None)
+        else:
+            out.append(gen_scalar(rng, typ))
+    return out
+
+
+def gen_qualdecl(rng, name=None, typ=None, is_array=None, with_value=None):
+    import pywbem
+    typ = typ or rng.choice(QUAL_TYPES)
+    is_array = (rng.random() < 0.3) if is_array is None else is_array
+    array_size = rng.choice([None, None, 1, 5, 70000]) if is_array else None
+    with_value = (rng.random() < 0.7) if with_value is None else with_value
+    value = gen_value(rng, typ, is_array) if with_value else None
+    r = rng.random()
+    if r < 0.2:
+        scopes = {'ANY': True}
+    elif r < 0.4:
+        scopes = {s: (rng.random() < 0.5) for s in SCOPES}
+    else:
+        scopes = {s: True for s in rng.sample(SCOPES, rng.randint(1, 4))}
+    if not any(scopes.values()):
+        scopes[rng.choice(SCOPES)] = True
+    return pywbem.CIMQualifierDeclaration(
+        name or gen_name(rng, 'Q'), typ, value=value, is_array=is_array, array_size=array_size, scopes=scopes,
+        overridable=rng.choice([None, True, False]), tosubclass=rng.choice([None, True, False]),
+        translatable=rng.choice([None, True, False]), toinstance=rng.choice([None, None, False]))
+
+
+# ---- what MOF can express: normal form of the original before comparing
+
+def norm_qualdecl(qd):
+    """scopes: the 8 DSP0004 scope keywords, absent = False; translatable False = not specified (MOF has no
+    keyword for 'not translatable'); toinstance is documented as not representable in MOF"""
+    q = qd.copy()
+    q.scopes = dict((s, bool(qd.scopes.get(s, False))) for s in SCOPES)
+    if q.translatable is False:
+        q.translatable = None
+    q.toinstance = None
+    return q
+
+
+def qualifier_for(rng, qd, value=None):
+    """a qualifier value of declaration qd as the compiler can return it: CIMQualifier.tomof() writes no flavors,
+    so the flavors of the compiled qualifier are those of the declaration in the repository"""
+    import pywbem
+    if value is None:
+        value = gen_value(rng, qd.type, qd.is_array)
+    return pywbem.CIMQualifier(qd.name, value, type=qd.type, overridable=qd.overridable, tosubclass=qd.tosubclass,
+                               translatable=qd.translatable, toinstance=qd.toinstance)
+
+
+def gen_qualifiers(rng, decls, scope, maxn=3):
+    out = []
+    cands = [d for d in decls if (d.scopes.get('ANY') or d.scopes.get(scope))
+             and d.name not in ('Key', 'EmbeddedInstance', 'EmbeddedObject')]
+    rng.shuffle(cands)
+    for d in cands[:rng.randint(0, maxn)]:
+        out.append(qualifier_for(rng, d))
+    return out
+
+
+def gen_class(rng, decls, name, superclass=None, refclasses=(), embed=None):
+    import pywbem
+    props, methods = [], []
+    dn = dict((d.name, d) for d in decls)
+    if embed and 'EmbeddedInstance' in dn and 'EmbeddedObject' in dn:
+        for i in range(rng.choice([0, 1, 1, 2])):
+            is_array = rng.random() < 0.3
+            if rng.random() < 0.5:
+                q = qualifier_for(rng, dn['EmbeddedInstance'], embed)
+            else:
+                q = qualifier_for(rng, dn['EmbeddedObject'], True)
+            props.append(pywbem.CIMProperty(gen_name(rng, 'e%d' % i), None, type='string', is_array=is_array,
+                                            qualifiers=[q], class_origin=name))
+    for i in range(rng.randint(0, 5)):
+        r = rng.random()
+        pname = gen_name(rng, 'p%d' % i)
+        quals = gen_qualifiers(rng, decls, 'PROPERTY')
+        if r < 0.12 and refclasses:
+            props.append(pywbem.CIMProperty(pname, None, type='reference', reference_class=rng.choice(refclasses),
+                                            qualifiers=gen_qualifiers(rng, decls, 'REFERENCE'), class_origin=name))
+            continue
+        typ = rng.choice(QUAL_TYPES)
+        is_array = rng.random() < 0.3
+        array_size = rng.choice([None, None, 3, 100]) if is_array else None
+        value = gen_value(rng, typ, is_array) if rng.random() < 0.6 else None
+        props.append(pywbem.CIMProperty(pname, value, type=typ, is_array=is_array, array_size=array_size,
+                                        qualifiers=quals, class_origin=name))
+    for i in range(rng.randint(0, 2)):
+        params = []
+        for j in range(rng.randint(0, 3)):
+            r = rng.random()
+            if r < 0.2 and refclasses:
+                is_array = rng.random() < 0.3
+                params.append(pywbem.CIMParameter(gen_name(rng, 'a%d' % j), 'reference',
+                                                  reference_class=rng.choice(refclasses), is_array=is_array,
+                                                  array_size=rng.choice([None, 4]) if is_array else None,
+                                                  qualifiers=gen_qualifiers(rng, decls, 'PARAMETER')))
+            else:
+                is_array = rng.random() < 0.3
+                params.append(pywbem.CIMParameter(gen_name(rng, 'a%d' % j), rng.choice(QUAL_TYPES), is_array=is_array,
+                                                  array_size=rng.choice([None, 4]) if is_array else None,
+                                                  qualifiers=gen_qualifiers(rng, decls, 'PARAMETER')))
+        methods.append(pywbem.CIMMethod(gen_name(rng, 'm%d' % i), rng.choice(QUAL_TYPES), parameters=params,
+                                        qualifiers=gen_qualifiers(rng, decls, 'METHOD'), class_origin=name))
+    # at most one key: a scalar string/integer property (the Key declaration is part of the given context)
+    keyable = [p for p in props if not p.is_array and p.type in ('string', 'uint8', 'sint32', 'uint64')
+               and 'EmbeddedInstance' not in p.qualifiers and 'EmbeddedObject' not in p.qualifiers]
+    if keyable and any(d.name == 'Key' for d in decls) and rng.random() < 0.5:
+        kd = [d for d in decls if d.name == 'Key'][0]
+        rng.choice(keyable).qualifiers['Key'] = qualifier_for(rng, kd, True)
+    return pywbem.CIMClass(name, properties=props, methods=methods, superclass=superclass,
+                           qualifiers=gen_qualifiers(rng, decls, 'CLASS'))
+
+
+def gen_instance(rng, cls, embed_cls=None, depth=0):
+    """an instance of cls with values for a random subset of its properties; the property objects carry the
+    attributes the compiler takes over from the class declaration"""
+    import pywbem
+    props = []
+    for cp in cls.properties.values():
+        if rng.random() < 0.25:
+            continue
+        emb = 'instance' if 'EmbeddedInstance' in cp.qualifiers else 'object' if 'EmbeddedObject' in cp.qualifiers \
+            else None
+        if emb:
+            if embed_cls is None or depth > 0:
+                continue
+            n = rng.choice([1, 1, 2, 3]) if cp.is_array else 1
+            vals = [gen_instance(rng, embed_cls, None, depth + 1) for _ in range(n)]
+            if any(v is None for v in vals):
+                continue
+            p = cp.copy()
+            p.qualifiers = type(cp.qualifiers)()
+            p.value = vals if cp.is_array else vals[0]
+            p.embedded_object = emb
+            props.append(p)
+            continue
+        if cp.type == 'reference':
+            # keys kept inside the domain where the WBEM URI round trip (C07) is not in question
+            kv = rng.choice([gen_string(rng, rng.randint(0, 9), (0, 0, 0.1, 0, 0.3)).replace('=', '').replace(',', ''),
+                             pywbem.Uint8(rng.randint(0, 255)), rng.random() < 0.5])
+            value = pywbem.CIMInstanceName(cp.reference_class, keybindings={'k': kv}) if rng.random() < 0.8 else None
+        elif 'Key' in cp.qualifiers:
+            value = gen_scalar(rng, cp.type)
+        else:
+            value = gen_value(rng, cp.type, cp.is_array, allow_null_items=True) if rng.random() < 0.85 else None
+        p = cp.copy()
+        p.qualifiers = pywbem.NocaseDict() if hasattr(pywbem, 'NocaseDict') else type(cp.qualifiers)()
+        p.value = value
+        props.append(p)
+    if not props:
+        return None
+    return pywbem.CIMInstance(cls.classname, properties=props)
+
+
+# ---- running one declaration through tomof() and the real compiler
+
+def seed_context(conn, decls=(), classes=()):
+    import copy
+    from pywbem._nocasedict import NocaseDict
+    conn.qualifiers[NS] = NocaseDict()
+    for d in decls:
+        conn.qualifiers[NS][d.name] = d.copy()
+    conn.classes[NS] = NocaseDict()
+    for c in classes:
+        conn.classes[NS][c.classname] = copy.deepcopy(c)
+    conn.instances[NS] = []
+
+
+def roundtrip(obj, maxline, decls=(), classes=()):
+    """-> dict(mof=, exc=|compiled=)   (tomof and compile both on the real code)"""
+    import pywbem
+    import signal
+    global _COMP
+    try:
+        mof = obj.tomof(maxline)
+    except Exception as e:  # noqa
+        cause = 'other'
+        if isinstance(e, ValueError):
+            # mofval(): a non-string literal that does not fit on a line of its own -> goes away with a wider line
+            try:
+                obj.tomof(maxline + 60)
+                cause = 'literal_wider_than_line'
+            except Exception:  # noqa
+                pass
+        return {'mof': None, 'tomof_exc': type(e).__name__, 'cause': cause}
+    comp, conn = compiler()
+    seed_context(conn, decls, classes)
+    old = signal.signal(signal.SIGALRM, _alarm)
+    signal.setitimer(signal.ITIMER_REAL, COMPILE_TIMEOUT)
+    try:
+        comp.compile_string(mof, NS)
+    except CompileTimeout:
+        _COMP = None
+        return {'mof': mof, 'exc': 'CompileTimeout'}
+    except Exception as e:  # noqa
+        return {'mof': mof, 'exc': type(e).__name__, 'msg': str(e)[:300]}
+    finally:
+        signal.setitimer(signal.ITIMER_REAL, 0)
+        signal.signal(signal.SIGALRM, old)
+    if isinstance(obj, pywbem.CIMQualifierDeclaration):
+        got = conn.qualifiers[NS].get(obj.name)
+    elif isinstance(obj, pywbem.CIMClass):
+        got = conn.classes[NS].get(obj.classname)
+    else:
+        insts = conn.instances[NS]
+        got = insts[-1] if insts else None
+    return {'mof': mof, 'compiled': got}
+
+
+def value_diff(a, b, typ):
+    """'' if equal; otherwise a short classification of how the compiled value b differs from the original a"""
+    import pywbem
+    if a is None or b is None:
+        return '' if a is b else ('null_vs_value' if a is None or b is None else '')
+    if isinstance(a, list) != isinstance(b, list):
+        return 'array_shape'
+    if isinstance(a, list):
+        if len(a) != len(b):
+            return 'array_length'
+        for x, y in zip(a, b):
+            d = value_diff(x, y, typ)
+            if d:
+                return d
+        return ''
+    if type(a) is not type(b) and not (isinstance(a, str) and isinstance(b, str)):
+        return 'python_type=%s->%s' % (type(a).__name__, type(b).__name__)
+    if isinstance(a, pywbem.CIMInstance):
+        # embedded instance: classify by the aspects of the nested comparison
+        nested = aspects(a, b)
+        if not nested:
+            b2 = b.copy()
+            b2.path = a.path
+            return '' if a == b2 else 'embedded=python_eq'
+        if all(x.endswith(':char16:char16_literal_text') for x in nested):
+            return 'char16_literal_text@embedded'
+        return 'embedded=' + nested[0].replace(':', '=')
+    if isinstance(a, float):
+        import struct
+        return '' if struct.pack('>d', a) == struct.pack('>d', b) else 'float_value'
+    if typ == 'char16' and isinstance(a, str) and b != a:
+        if b == "'" + pywbem._cim_obj._mof_escaped(a) + "'":
+            return 'char16_literal_text'
+        return 'char16_value'
+    return '' if a == b else 'value'
+
+
+def aspects_qualifier(a, b, path):
+    out = []
+    if a.name.lower() != b.name.lower():
+        out.append(path + ':name')
+    if a.type != b.type:
+        out.append(path + ':type')
+    d = value_diff(a.value, b.value, a.type)
+    if d:
+        out.append(path + ':value:' + a.type + ':' + d)
+    for f in ('overridable', 'tosubclass', 'translatable', 'toinstance'):
+        if getattr(a, f) != getattr(b, f):
+            out.append(path + ':flavor:' + f)
+    return out
+
+
+def aspects_qualifiers(a, b, path):
+    out = []
+    an = [k.lower() for k in a.keys()]
+    bn = [k.lower() for k in b.keys()]
+    if sorted(an) != sorted(bn):
+        return [path + ':qualifier_set']
+    for k in a.keys():
+        out += aspects_qualifier(a[k], b[k], path + '.qualifier')
+    return out
+
+
+def aspects_typed(a, b, path, with_value=True):
+    """CIMProperty / CIMParameter"""
+    out = []
+    if a.name.lower() != b.name.lower():
+        out.append(path + ':name')
+    if a.type != b.type:
+        out.append(path + ':type')
+    if bool(a.is_array) != bool(b.is_array) or a.array_size != b.array_size:
+        out.append(path + ':array_shape')
+    if (a.reference_class or '').lower() != (b.reference_class or '').lower():
+        out.append(path + ':reference_class')
+    if with_value:
+        d = value_diff(a.value, b.value, a.type)
+        if d:
+            out.append(path + ':value:' + a.type + ':' + d)
+    return out
+
+
+def aspects(orig, got):
+    """list of aspects (names, types, array shape, values, qualifier values and flavors) in which the compiled
+    object differs from the original — the property's own list; nothing else is compared"""
+    import pywbem
+    if got is None:
+        return ['missing']
+    out = []
+    if isinstance(orig, pywbem.CIMQualifierDeclaration):
+        a, b = norm_qualdecl(orig), got
+        if a.name.lower() != b.name.lower():
+            out.append('qualdecl:name')
+        if a.type != b.type:
+            out.append('qualdecl:type')
+        if bool(a.is_array) != bool(b.is_array) or a.array_size != b.array_size:
+            out.append('qualdecl:array_shape')
+        d = value_diff(a.value, b.value, a.type)
+        if d:
+            out.append('qualdecl:value:' + a.type + ':' + d)
+        if dict((s, bool(b.scopes.get(s, False))) for s in SCOPES) != a.scopes:
+            out.append('qualdecl:scopes')
+        for f in ('overridable', 'tosubclass', 'translatable', 'toinstance'):
+            if getattr(a, f) != getattr(b, f):
+                out.append('qualdecl:flavor:' + f)
+        return out
+    if isinstance(orig, pywbem.CIMClass):
+        if orig.classname.lower() != got.classname.lower():
+            out.append('class:name')
+        if (orig.superclass or '').lower() != (got.superclass or '').lower():
+            out.append('class:superclass')
+        out += aspects_qualifiers(orig.qualifiers, got.qualifiers, 'class')
+        if [k.lower() for k in orig.properties.keys()] != [k.lower() for k in got.properties.keys()]:
+            out.append('class:property_set')
+        else:
+            for k in orig.properties.keys():
+                out += aspects_typed(orig.properties[k], got.properties[k], 'class.property')
+                out += aspects_qualifiers(orig.properties[k].qualifiers, got.properties[k].qualifiers, 'class.property')
+        if [k.lower() for k in orig.methods.keys()] != [k.lower() for k in got.methods.keys()]:
+            out.append('class:method_set')
+        else:
+            for k in orig.methods.keys():
+                m, n = orig.methods[k], got.methods[k]
+                if m.return_type != n.return_type:
+                    out.append('class.method:return_type')
+                out += aspects_qualifiers(m.qualifiers, n.qualifiers, 'class.method')
+                if [x.lower() for x in m.parameters.keys()] != [x.lower() for x in n.parameters.keys()]:
+                    out.append('class.method:parameter_set')
+                else:
+                    for x in m.parameters.keys():
+                        out += aspects_typed(m.parameters[x], n.parameters[x], 'class.parameter', with_value=False)
+                        out += aspects_qualifiers(m.parameters[x].qualifiers, n.parameters[x].qualifiers,
+                                                  'class.parameter')
+        return out
+    # instance
+    if orig.classname.lower() != got.classname.lower():
+        out.append('instance:classname')
+    if [k.lower() for k in orig.properties.keys()] != [k.lower() for k in got.properties.keys()]:
+        out.append('instance:property_set')
+    else:
+        for k in orig.properties.keys():
+            out += aspects_typed(orig.properties[k], got.properties[k], 'instance.property')
+    return out
+
+
+def check_decl(run, kind, obj, maxline, decls=(), classes=(), case_extra=None):
+    """oracle for one declaration: tomof -> compile -> compare; returns the roundtrip result"""
+    r = roundtrip(obj, maxline, decls, classes)
+    case = {'op': 'decl', 'kind': kind, 'maxline': maxline, 'obj': obj_repr(obj),
+            'decls': [obj_repr(d) for d in decls], 'classes': [obj_repr(c) for c in classes]}
+    if r.get('tomof_exc'):
+        run.violate({'stage': 'decl', 'decl': kind, 'kind': 'tomof_exception', 'exc': r['tomof_exc'],
+                     'cause': r['cause']}, case, {})
+        return r, case
+    if 'exc' in r:
+        run.violate({'stage': 'decl', 'decl': kind, 'kind': 'recompile_exception', 'exc': r['exc'],
+                     'cause': classify_compile_failure(obj, r)},
+                    case, {'mof': r['mof'], 'msg': r.get('msg')})
+        return r, case
+    asp = aspects(obj, r['compiled'])
+    for a in sorted(set(asp)):
+        f = a.split(':')
+        sig = {'stage': 'decl', 'decl': kind, 'kind': 'differs', 'where': f[0], 'what': f[1] if len(f) > 1 else ''}
+        if len(f) > 3:
+            sig['type'], sig['how'] = f[2], f[3]
+            if sig['how'] == 'char16_literal_text@embedded':
+                sig['type'], sig['how'], sig['where'] = 'char16', 'char16_literal_text', sig['where'] + '.embedded'
+        elif len(f) > 2:
+            sig['which'] = f[2]
+        run.violate(sig, case, {'mof': r['mof'], 'compiled': repr(r['compiled'])[:3000]})
+    if not asp:
+        pe = python_eq(obj, r['compiled'])
+        run.count('decl:%s:python_eq=%s' % (kind, pe))
+        if pe is not True:
+            run.violate({'stage': 'decl', 'decl': kind, 'kind': 'differs', 'where': kind, 'what': 'python_eq',
+                         'which': str(pe)}, case, {'mof': r['mof'], 'compiled': repr(r['compiled'])[:3000]})
+    return r, case
+
+
+def python_eq(orig, got):
+    """statistic only: does `==` of the pywbem objects agree once the listed aspects agree?"""
+    import pywbem
+    try:
+        if isinstance(orig, pywbem.CIMQualifierDeclaration):
+            return norm_qualdecl(orig) == norm_qualdecl(got)
+        if isinstance(orig, pywbem.CIMInstance):
+            g = got.copy()
+            g.path = orig.path
+            return orig == g
+        return orig == got
+    except Exception as e:  # noqa
+        return type(e).__name__
+
+
+def classify_compile_failure(obj, r):
+    """coarse cause of a compile failure, from the generated text only (for precise known-finding matching)"""
+    import re
+    mof = r.get('mof') or ''
+    if re.search(r'(?<![\w."\'])[+-]?(inf|nan)\b', mof):
+        return 'real_inf_nan'
+    if re.search(r'(?<![\w."\'.])[+-]?[0-9]+[eE][+-]?[0-9]+', mof):
+        return 'real_exponent_without_point'
+    return 'other'
+
+
+def obj_repr(o):
+    """replayable representation: pickle, base64"""
+    import base64
+    import pickle
+    return base64.b64encode(pickle.dumps(o, protocol=2)).decode('ascii')
+
+
+def obj_load(s):
+    import base64
+    import pickle
+    return pickle.loads(base64.b64decode(s))
+
+
+def KEY_DECL():
+    import pywbem
+    return pywbem.CIMQualifierDeclaration('Key', 'boolean', value=False, scopes={'PROPERTY': True, 'REFERENCE': True},
+                                          overridable=False, tosubclass=True)
+
+
+def std_decls(rng):
+    """a pool of qualifier declarations: a few DMTF-like ones plus random ones of every type"""
+    import pywbem
+    out = [
+        KEY_DECL(),
+        pywbem.CIMQualifierDeclaration('Description', 'string', value=None, scopes={'ANY': True},
+                                       overridable=True, tosubclass=True, translatable=True),
+        pywbem.CIMQualifierDeclaration('Values', 'string', is_array=True, value=None, scopes={'PROPERTY': True, 'METHOD': True, 'PARAMETER': True},
+                                       overridable=True, tosubclass=True, translatable=True),
+        pywbem.CIMQualifierDeclaration('ValueMap', 'string', is_array=True, value=None, scopes={'PROPERTY': True, 'METHOD': True, 'PARAMETER': True}),
+        pywbem.CIMQualifierDeclaration('Abstract', 'boolean', value=False, scopes={'CLASS': True, 'ASSOCIATION': True, 'INDICATION': True},
+                                       overridable=True, tosubclass=False),
+        pywbem.CIMQualifierDeclaration('MaxLen', 'uint32', value=None, scopes={'PROPERTY': True, 'METHOD': True, 'PARAMETER': True}),
+        pywbem.CIMQualifierDeclaration('EmbeddedInstance', 'string', value=None,
+                                       scopes={'PROPERTY': True, 'METHOD': True, 'PARAMETER': True}),
+        pywbem.CIMQualifierDeclaration('EmbeddedObject', 'boolean', value=False,
+                                       scopes={'PROPERTY': True, 'METHOD': True, 'PARAMETER': True},
+                                       overridable=False, tosubclass=True),
+    ]
+    for t in QUAL_TYPES:
+        out.append(gen_qualdecl(rng, name='X' + t, typ=t, is_array=False))
+        if rng.random() < 0.5:
+            out.append(gen_qualdecl(rng, name='A' + t, typ=t, is_array=True))
+    return out
+
+
+def stage2(run):
+    rng = run.rng
+    n_q, n_c, n_i = (6000, 3000, 3000) if run.thorough else (700, 350, 350)
+    maxlines = lambda: rng.choice([40, 60, 80, 80, 80, 100, 120, rng.randint(40, 120)])  # noqa: E731
+    for _ in range(n_q):
+        qd = gen_qualdecl(rng)
+        ml = maxlines()
+        r, case = check_decl(run, 'qualifierdecl', qd, ml)
+        run.case(case, nontrivial=qd.value is not None)
+        run.count('decl:qualifierdecl:' + qd.type + ('[]' if qd.is_array else ''))
+    for _ in range(n_c):
+        decls = std_decls(rng)
+        base = gen_class(rng, decls, gen_name(rng, 'B_'))
+        other = gen_class(rng, decls, gen_name(rng, 'R_'))
+        cls = gen_class(rng, decls, gen_name(rng, 'C_'), superclass=rng.choice([None, base.classname]),
+                        refclasses=[base.classname, other.classname], embed=other.classname)
+        ml = maxlines()
+        r, case = check_decl(run, 'class', cls, ml, decls, [base, other])
+        run.case(case, nontrivial=bool(cls.properties or cls.methods or cls.qualifiers))
+        run.count('decl:class:props=%d,methods=%d' % (min(len(cls.properties), 3), len(cls.methods)))
+    for _ in range(n_i):
+        decls = std_decls(rng)
+        other = gen_class(rng, [], gen_name(rng, 'R_'))
+        cls = gen_class(rng, decls, gen_name(rng, 'C_'), refclasses=[other.classname], embed=other.classname)
+        inst = gen_instance(rng, cls, other)
+        if inst is None:
+            continue
+        ml = maxlines()
+        r, case = check_decl(run, 'instance', inst, ml, decls, [cls, other])
+        run.case(case, nontrivial=True)
+        for p in inst.properties.values():
+            run.count('decl:instance:' + p.type + ('[]' if p.is_array else '') + (':null' if p.value is None else ''))
+
+
+# =========================================================================== entry points
+
 def run(run):
     run.rule = ('stage 1: seeded strings (6 alphabets weighted to quote/apostrophe/backslash/control characters, '
                 'hex-looking text after control characters, long blank-free words, non-ASCII incl. astral) of every '
                 'length 0..4*maxline and with escape sequences placed at columns avl-8..avl+3 of the 1st..3rd fold, '
                 'x maxline 40..120 x indent x line_pos x end_space x avoid_splits; deterministic sweep of one '
                 'escape over columns avl-7..avl+1 for every maxline; near-miss literal bodies for lexer and '
-                '_fixStringValue. A mofstr case is non-trivial when the string was folded into >= 2 parts.')
-    run.assumptions += ['PLY lexer/LALR driver: the per-token regexes are hand-modelled; dispatch and tables are not',
-                        'Python str.replace/rfind/slicing/re.finditer semantics as modelled in Model/MofStr.lean']
+                '_fixStringValue; arrays/scalars of every type through _value_tomof. A mofstr case is non-trivial '
+                'when the string was folded into >= 2 parts. stage 2: random qualifier declarations (every type, '
+                'arrays, NULL, all scope/flavor sets), classes (qualifiers of every type on class/property/method/'
+                'parameter, references, arrays with sizes, defaults, embedded instance/object properties, '
+                'superclass) and instances (every type, NULL, NULL array items, references, embedded instances) '
+                'x maxline 40..120 -> tomof() -> real MOFCompiler on MOFWBEMConnection(conn=None) seeded with the '
+                'needed declarations -> compared aspect by aspect and with ==.')
+    run.assumptions += ['PLY lexer/LALR driver and tables: the per-token regexes for string/char literals are hand-modelled; '
+                        'token dispatch, the grammar and everything at declaration level are NOT modelled (stage 2 is '
+                        'decided by the differential oracle only: C08 is partial there)',
+                        'Python str.replace/rfind/slicing/re.finditer semantics as modelled in Model/MofStr.lean',
+                        'what "MOF can express": scope dict = 8 DSP0004 keywords; translatable False = unspecified; '
+                        'toinstance not representable; qualifier-value flavors come from the declaration; class '
+                        'features carry class_origin = class name, propagated = None; instance paths ignored; '
+                        'real values finite; reference key values within the C07-safe domain']
     stage1(run)
+    stage1_values(run)
+    stage1_numbers(run)
+    stage2(run)
+
+
+def search(run):
+    """proof / extractor / K broke and the oracle saw nothing: widen the oracle-only search on the real code"""
+    before = len(run.violations)
+    rng = run.rng
+    sub = common.Run(PROP, 'thorough', run.seed)
+    sub.rng = rng
+
+    def flush():
+        run.violations.extend(sub.violations)
+        del sub.violations[:]
+        return len(run.violations) > before
+    # 1. every character alone and between letters (a changed escape rule shows here)
+    for cp in list(range(1, 0x180)) + [0x2028, 0xFFFF, 0x1F600]:
+        for s in (chr(cp), 'a' + chr(cp) + 'b', chr(cp) * 3, '\\' + chr(cp), chr(cp) + '"'):
+            c = {'s': s, 'indent': 3, 'maxline': 80, 'pos': 10, 'es': 0, 'avoid': False, 'q': 34}
+            real = real_mofstr(c)
+            if 'ok' in real:
+                oracle_string(sub, {'op': 'mofstr', **c}, common.from_cps(real['ok']['mof']), s, 'mofstr')
+            else:
+                sub.violate({'stage': 'string', 'kind': 'tomof_exception', 'exc': real['exc'], 'where': 'mofstr'},
+                            {'op': 'mofstr', **c}, real)
+    if flush():
+        return run.violations[before:]
+    # 2. every escape at every column around every fold, every maxline
+    for maxline in range(40, 121):
+        for indent, pos, es, avoid in ((3, 23, 3, False), (6, 18, 1, True), (7, 30, 3, True), (0, 0, 0, False)):
+            avl = maxline - indent - 2
+            for sp in ['"', "'", '\\', '\n', '\x01', '\x1f', ' ']:
+                for d in range(-8, 4):
+                    for tail in ('bbbbb', ' b', ''):
+                        s = 'a' * max(avl + d, 0) + sp + tail
+                        c = {'s': s, 'indent': indent, 'maxline': maxline, 'pos': pos, 'es': es, 'avoid': avoid, 'q': 34}
+                        real = real_mofstr(c)
+                        if 'ok' in real:
+                            oracle_string(sub, {'op': 'mofstr', **c}, common.from_cps(real['ok']['mof']), s, 'mofstr')
+                        else:
+                            sub.violate({'stage': 'string', 'kind': 'tomof_exception', 'exc': real['exc'],
+                                         'where': 'mofstr'}, {'op': 'mofstr', **c}, real)
+        if flush():
+            return run.violations[before:]
+    # 3. random strings, thorough generator
+    for i in range(40000):
+        c = gen_mofstr_case(rng, i)
+        c['q'] = 34
+        real = real_mofstr(c)
+        if 'ok' in real:
+            oracle_string(sub, {'op': 'mofstr', **c}, common.from_cps(real['ok']['mof']), c['s'], 'mofstr')
+        else:
+            sub.violate({'stage': 'string', 'kind': 'tomof_exception', 'exc': real['exc'], 'where': 'mofstr'},
+                        {'op': 'mofstr', **c}, real)
+        if i % 2000 == 0 and flush():
+            return run.violations[before:]
+    # 4. declarations
+    stage2(sub)
+    flush()
+    return run.violations[before:]
 
 
 def replay(payload):
-    return True, 'not implemented yet'
+    case = payload['case']
+    r = common.Run(PROP, 'quick', 0)
+    if case.get('op') == 'mofstr':
+        c = {k: case[k] for k in ('s', 'indent', 'maxline', 'pos', 'es', 'avoid', 'q')}
+        real = real_mofstr(c)
+        if 'ok' in real:
+            oracle_string(r, case, common.from_cps(real['ok']['mof']), c['s'], 'mofstr')
+        else:
+            r.violate({'stage': 'string', 'kind': 'tomof_exception', 'exc': real['exc'], 'where': 'mofstr'}, case, real)
+        shown = real
+    elif case.get('op') == 'decl':
+        obj = obj_load(case['obj'])
+        decls = [obj_load(x) for x in case['decls']]
+        classes = [obj_load(x) for x in case['classes']]
+        res, _ = check_decl(r, case['kind'], obj, case['maxline'], decls, classes)
+        shown = {'original': repr(obj)[:1500], 'mof': res.get('mof'), 'compiled': repr(res.get('compiled'))[:1500],
+                 'exc': res.get('exc') or res.get('tomof_exc'), 'msg': res.get('msg')}
+    else:
+        return True, 'case of kind %r is a correspondence case, not a property case' % case.get('op')
+    if r.violations:
+        return False, 'property C08 FAILS on this input: ' + json.dumps(r.violations[0]['sig']) + \
+            '\n' + json.dumps(shown, default=str)[:4000]
+    return True, 'property C08 holds on this input: ' + json.dumps(shown, default=str)[:2000]
